@@ -309,6 +309,32 @@ class FnIt(It):
         return self._b()
 
 
+class PeekIt(It):
+    """core::iter::Peekable: one element of look-ahead"""
+
+    def __init__(self, inner):
+        self.inner = inner
+        self.buf = []           # [] or [element | STOP]
+
+    def peek(self):
+        if not self.buf:
+            self.buf.append(self.inner.next())
+        return self.buf[0]
+
+    def next(self):
+        if self.buf:
+            return self.buf.pop()
+        return self.inner.next()
+
+    def next_back(self):
+        if self.buf and self.buf[0] is STOP:
+            return STOP
+        x = self.inner.next_back()
+        if x is STOP and self.buf:
+            return self.buf.pop()
+        return x
+
+
 # ------------------------------------------------------------------------------------ helpers
 _GEN = re.compile(r"::<[^<>]*(?:<[^<>]*(?:<[^<>]*>[^<>]*)*>[^<>]*)*>")
 LOG_MACROS = {"trace", "debug", "info", "warn", "$crate::log", "log"}
@@ -316,7 +342,7 @@ DERIVES = {"Clone", "PartialEq", "Eq", "Debug", "Hash", "PartialOrd", "Ord", "De
 IDENTITY = {"clone", "to_owned", "to_string", "into", "as_ref", "as_mut", "borrow", "borrow_mut", "as_deref", "as_deref_mut",
             "as_str", "as_slice", "as_mut_slice", "to_vec", "deref", "deref_mut", "cloned", "copied", "by_ref", "into_boxed_str",
             "into_owned", "as_mut_str", "into_string", "to_str", "as_bytes", "into_future", "into_inner", "as_mut_vec", "into_vec",
-            "into_boxed_slice", "make_contiguous"}
+            "into_boxed_slice", "make_contiguous", "from_char"}
 
 
 def norm_path(p):
@@ -506,9 +532,13 @@ class Interp:
                     raise Unknown("variant pattern on %s" % show(v))
                 return v[1] == e["variant"] and not v[2]
             pv = e.get("v") if "t" in e else e.get("value")
+            if isinstance(pv, dict) and "raw_le" in pv:
+                pv = pv["raw_le"]                         # a newtype around an integer (e.g. a code point), evaluated by the front end
             if pv is None:
                 raise Unknown("constant pattern without value")
             if isinstance(v, tuple) and v[0] in ("i", "s", "b"):
+                if v[0] == "s" and isinstance(pv, int) and not isinstance(pv, bool) and len(v[1]) == 1:
+                    return ord(v[1]) == pv            # a character against a code-point constant (JavaCodePoint / u32 consts)
                 return v[1] == pv
             raise Unknown("literal pattern on %s" % show(v))
         if k == "prange":
@@ -631,6 +661,18 @@ class Interp:
             if i >= 0:
                 return o.vs[i]
             raise Unknown("map index of a missing key (panic)")
+        if isinstance(o, tuple) and o[0] == "s" and isinstance(iv, St) and (iv.adt or "").startswith("core::ops::range::Range"):
+            bs = o[1].encode()
+            lo = iv.f.get("start", I(0))
+            hi = iv.f.get("end", I(len(bs)))
+            if lo[0] == "i" and hi[0] == "i":
+                h = hi[1] + (1 if "Inclusive" in iv.adt else 0)
+                if 0 <= lo[1] <= h <= len(bs):
+                    try:
+                        return S(bs[lo[1]:h].decode())
+                    except UnicodeDecodeError:
+                        raise Unknown("str slice inside a character (panic)")
+                raise Unknown("str slice out of bounds (panic)")
         raise Unknown("index of %s" % show(o))
 
     # ------------------------------------------------------------------ expressions
@@ -775,7 +817,10 @@ class Interp:
             return UNIT
         if k == "assignop":
             g, st = self.place(n["l"], env)
-            st(self.arith(n["op"], g(), self.ev(n["r"], env)))
+            op = n["op"]
+            if len(op) > 1 and op.endswith("=") and op not in ("==", "!=", "<=", ">="):
+                op = op[:-1]                              # `+=` is recorded with or without the `=`
+            st(self.arith(op, g(), self.ev(n["r"], env)))
             return UNIT
         if k == "index":
             return self.index(self.ev(n["e"], env), self.ev(n["i"], env))
@@ -1157,7 +1202,7 @@ class Interp:
             out = MapV()
             for x in items:
                 self.map_insert(out, x[1][0], x[1][1])
-        elif t.startswith("alloc::string::String"):
+        elif t.startswith(("alloc::string::String", "java_string::owned::JavaString")):
             out = S("".join(self.display(x) for x in items))
         elif t.startswith("()"):
             out = UNIT
@@ -1612,8 +1657,22 @@ class Interp:
                         flag[0] = True
                         return x
             return FnIt(nx)
-        if name in ("peekable", "fuse"):
+        if name == "peekable":
+            return it if isinstance(it, PeekIt) else PeekIt(it)
+        if name == "fuse":
             return it
+        if isinstance(it, PeekIt) and name in ("peek", "peek_mut"):
+            x = it.peek()
+            return NONE if x is STOP else SOME(x)
+        if isinstance(it, PeekIt) and name in ("next_if", "next_if_eq") and len(a) == 2:
+            x = it.peek()
+            if x is STOP:
+                return NONE
+            hit = self.eq(x, a[1]) if name == "next_if_eq" else truth(ap(a[1], [x]), "next_if predicate")
+            if hit:
+                it.next()
+                return SOME(x)
+            return NONE
         if name == "collect":
             return self.collect(it, ty)
         if name == "for_each":
@@ -1882,13 +1941,38 @@ class Interp:
             return S(s.replace(sv, a[2][1]))
         if name == "trim":
             return S(s.strip())
+        if name == "trim_end":
+            return S(s.rstrip())
+        if name == "trim_start":
+            return S(s.lstrip())
+        if name in ("trim_matches", "trim_start_matches", "trim_end_matches") and sv is not None and sv != "":
+            t = s
+            if name != "trim_end_matches":
+                while t.startswith(sv):
+                    t = t[len(sv):]
+            if name != "trim_start_matches":
+                while t.endswith(sv):
+                    t = t[:len(t) - len(sv)]
+            return S(t)
+        if name == "find" and sv is not None:
+            i = s.find(sv)
+            return NONE if i < 0 else SOME(I(len(s[:i].encode())))
+        if name == "rfind" and sv is not None:
+            i = s.rfind(sv)
+            return NONE if i < 0 else SOME(I(len(s[:i].encode())))
+        if name == "split_at" and arg is not None and arg[0] == "i":
+            bs = s.encode()
+            try:
+                return T_(S(bs[:arg[1]].decode()), S(bs[arg[1]:].decode()))
+            except UnicodeDecodeError:
+                raise Unknown("split_at inside a character")
         if name == "chars":
             return ListIt([S(ch) for ch in s])
         if name == "to_lowercase" or name == "to_ascii_lowercase":
             return S(s.lower())
         if name == "to_uppercase" or name == "to_ascii_uppercase":
             return S(s.upper())
-        if name in ("push_str", "push") and sv is not None and place:
+        if name in ("push_str", "push", "push_java", "push_java_str") and sv is not None and place:
             g, st = place()
             st(S(g()[1] + sv))
             return UNIT
